@@ -25,6 +25,7 @@ type extState struct {
 	// C13
 	leaseCuts []*leaseCut
 	cutM      map[[2]string]bool
+	reqCutM   map[[2]string]bool
 
 	// C14
 	pvIso  map[string]*pvIso
@@ -93,6 +94,7 @@ func (x *extState) init() {
 	x.verifies = map[uint64]*verifyOp{}
 	x.verByInst = map[instKey][]*verifyOp{}
 	x.cutM = map[[2]string]bool{}
+	x.reqCutM = map[[2]string]bool{}
 	x.recent = map[instKey][]recentAck{}
 	x.pvIso = map[string]*pvIso{}
 }
